@@ -353,8 +353,9 @@ CHECK_DEADLOCK FALSE
 """
 
 
-def _record_calls(binary, casefile, tracefile, inputsfile, label):
-    rc, _out, err = vf.run_driver(binary, ["-mode=calls", "-testdata", TESTDATA, "-inputs", inputsfile, "-workers", "8"],
+def _record_calls(binary, casefile, tracefile, inputsfile, label, modes="tolerant,abort"):
+    rc, _out, err = vf.run_driver(binary, ["-mode=calls", "-testdata", TESTDATA, "-inputs", inputsfile, "-workers", "8",
+                                           "-modes", modes],
                                   stdin_path=casefile, stdout_path=tracefile, timeout=3000)
     if rc != 0:
         raise vf.MachineryError("parsepos -mode=calls failed (%s): %s" % (label, err[-3000:]))
@@ -389,7 +390,7 @@ def _split_trace(tracefile, wd, prefix, max_events):
 def _validate(sub, nevents, timeout=2400):
     """TLC on sub/trace.ndjson; returns (TLCResult, [viol dicts])"""
     _write(os.path.join(sub, "trace.cfg"), TRACE_CFG % "trace.ndjson")
-    r = vf.tlc("ParseCallTrace", "trace.cfg", sub, workers=1, timeout=timeout, heap="6g")
+    r = vf.tlc("ParseCallTrace", "trace.cfg", sub, workers=1, timeout=timeout, heap="3g")
     viols = []
     rejected = None
     with open(r.stdout_path) as fh:
@@ -440,8 +441,8 @@ def _judge(family, tracefile, inputsfile, wd, verdict, max_events=12000):
     if not chunks:
         raise vf.MachineryError("no trace recorded for " + family)
     results = []
-    for i in range(0, len(chunks), 6):
-        results += _par([(lambda c=c: _validate(c[0], c[1])) for c in chunks[i:i + 6]])
+    for i in range(0, len(chunks), 8):
+        results += _par([(lambda c=c: _validate(c[0], c[1])) for c in chunks[i:i + 8]])
     states = sum(r.distinct for r, _v, _rej in results)
     for (sub, _n), (_r, _v, rej) in zip(chunks, results):
         if rej:
@@ -528,7 +529,7 @@ def run_c12(pid, tier, replay):
     maxlen = 5 if thorough else 4
     simn, simd = (3000, 12) if thorough else (150, 10)
     stride = 1 if thorough else 97
-    chain_stride = 251 if thorough else 2999
+    chain_stride = 401 if thorough else 2999
 
     def mc_contract():
         sub = os.path.join(wd, "contract")
@@ -568,13 +569,14 @@ def run_c12(pid, tier, replay):
             shutil.copyfileobj(open("%s/cases_%s.jsonl" % (wd, n)), out)
     st_text, st_mut = _par([
         lambda: _record_calls(binary, wd + "/cases_text.jsonl", wd + "/trace_text.ndjson", wd + "/inputs_text.jsonl", "text"),
-        lambda: _record_calls(binary, wd + "/cases_mutall.jsonl", wd + "/trace_mut.ndjson", wd + "/inputs_mut.jsonl", "mutants"),
+        lambda: _record_calls(binary, wd + "/cases_mutall.jsonl", wd + "/trace_mut.ndjson", wd + "/inputs_mut.jsonl", "mutants",
+                              modes="tolerant" if thorough else "tolerant,abort"),
     ])
     _log("recorded: text %s; mutants %s" % (st_text["stats"], st_mut["stats"]))
     vstates = 0
     nchunks = 0
     for family, tr, inp in (("text", "trace_text.ndjson", "inputs_text.jsonl"), ("mutants", "trace_mut.ndjson", "inputs_mut.jsonl")):
-        s, c = _judge(family, wd + "/" + tr, wd + "/" + inp, wd, verdict)
+        s, c = _judge(family, wd + "/" + tr, wd + "/" + inp, wd, verdict, max_events=60000 if thorough else 12000)
         vstates += s
         nchunks += c
     _log("validated: %d TLC states in %d chunks" % (vstates, nchunks))
@@ -629,6 +631,7 @@ def run_c12(pid, tier, replay):
         "for mutants of real files the table is the driver's",
         "an invalid UTF-8 byte counts as one column when deciding whether a column exists (permissive)",
         "inputs are read from an in-memory reader (no I/O errors); file name fixed",
+        "both reporter modes are recorded for the enumerated strings (and for mutants in the quick tier); thorough records mutants with the tolerant reporter only",
         "ToDescriptor = parser.ResultFromAST(ast, validate=true) with an error tolerant reporter; its reported positions must also exist in the input"],
         time.time() - t0, violations=len(verdict.violations), known=verdict.known_hits)
     return rc
